@@ -634,11 +634,36 @@ package ast
 //@   requires[valid] cursor.current != nil
 //@   assume cursor.current != nil ==> istype(cursor.current.Elem, byteArrayWrapper)
 //@   pure
+// assumed (llrb keeps its elements ordered by Compare; byteArrayComparable compares ascending, reverseByteArrayComparable
+// descending): a tree cursor over a tree holding only one kind of element runs in that kind's direction
 //@ func NewTreeCursor
 //@   props C14 C10
 //@   requires tree != nil
 //@   pure
 //@   ensures result != nil
+//@   censures[llrb-in-order] curLen[result] == treeLen[tree] && (!treeKinds[tree][typeid(byteArrayComparable)] || !treeKinds[tree][typeid(reverseByteArrayComparable)] ==> curDesc[result] == treeKinds[tree][typeid(reverseByteArrayComparable)])
+// the comparables order byte strings ascending / descending
+//@ func (byteArrayComparable).Compare
+//@   props C14
+//@   pure
+//@   ensures[ascending] istype(comparable, byteArrayComparable) ==> (result < 0) == str_lt(str(b), str(as(comparable, byteArrayComparable))) && (result == 0) == (str(b) == str(as(comparable, byteArrayComparable)))
+//@ func (reverseByteArrayComparable).Compare
+//@   props C14
+//@   pure
+//@   ensures[descending] istype(comparable, reverseByteArrayComparable) ==> (result > 0) == str_lt(str(b), str(as(comparable, reverseByteArrayComparable))) && (result == 0) == (str(b) == str(as(comparable, reverseByteArrayComparable)))
+// a TreeSet holds only elements of the kind its direction asks for
+//@ func NewTreeSet
+//@   props C14
+//@   pure
+//@   ensures[empty-directed] result != nil && fresh(result) && result.forward == forward && result.tree != nil && fresh(result.tree)
+//@ func (*TreeSet).Add
+//@   props C14
+//@   modifies treeLen[set.tree], treeKinds[set.tree]
+//@   ensures treeLen[set.tree] == old(treeLen[set.tree]) + 1
+//@ func (*TreeSet).ToCursor
+//@   props C14
+//@   pure
+//@   ensures[directed] result != nil && (curLen[result] > 0 ==> curDesc[result] == !set.forward)
 //@ func (byteArrayWrapper).toBytes
 //@   pure
-//@ typeinv TreeSet: self.tree != nil
+//@ typeinv TreeSet: self.tree != nil && treeLen[self.tree] >= 0 && (self.forward ==> !treeKinds[self.tree][typeid(reverseByteArrayComparable)]) && (!self.forward ==> !treeKinds[self.tree][typeid(byteArrayComparable)] && (treeLen[self.tree] > 0 ==> treeKinds[self.tree][typeid(reverseByteArrayComparable)]))
